@@ -424,6 +424,7 @@ func seqProfile(prop string, rng *simrt.Rng, tier string) (*Profile, map[string]
 		k["fsck_every"] = 0
 		k["nshard"] = 257
 		k["readback"] = 1
+		p.BigFileBlocks = 600
 		k["nospace"] = 1 // the disks are small on purpose: running out of space is legitimate here
 		disk = uint64(1700 + rng.Intn(1500)) // small, so that blocks are recycled quickly
 	case "C04":
@@ -957,7 +958,9 @@ func (seqEngine) Exec(spec *Spec) *Result {
 		disk = smallestDisk() + uint64(spec.knob("data_blocks", 50))
 	}
 	x := &seqRun{spec: spec, res: res, d: simdisk.New(disk)}
-	sim := simrt.Run(simConfig(spec.Sched, 20_000_000), x.main)
+	scfg := simConfig(spec.Sched, 20_000_000)
+	scfg.SecondChance = 5_000_000
+	sim := simrt.Run(scfg, x.main)
 	res.Fingerprint = sim.Fingerprint
 	res.SchedPrint = sim.SchedPrint
 	res.Steps = sim.Stats.Steps
